@@ -16,7 +16,9 @@ import (
 )
 
 func main() {
-	log.SetOutput(io.Discard) // assert failures log a stack trace; the panic value is what we record
+	if os.Getenv("VERIF_STACKS") == "" {
+		log.SetOutput(io.Discard) // assert failures log a stack trace; the panic value is what we record
+	}
 	mode := os.Args[1]
 	out := os.Args[2]
 	nscen, _ := strconv.Atoi(os.Args[3])
